@@ -185,6 +185,8 @@ def doOnDisconnect (s : S) (rc : RC) (fromBroker : Bool) : S :=
 /-- `_loop_rc_handle(rc)` -/
 def loopRcHandle (s : S) (rc : RC) : S × RC :=
   if rc ≠ 0 then
+    if s.sock.isNone then (s, rc)      -- already closed and reported while the packet was handled
+    else
     let s := s.sockClose
     if s.disconnectingOrDone then
       let s := { s with cstate := .disconnected }
@@ -327,7 +329,7 @@ def resetOutMsg (clean : Bool) (m : OutMsg) : OutMsg :=
     { m with dup := if m.state = .waitPuback then true else m.dup, state := .publish }
   else if m.qos = 2 then
     if clean then
-      { m with dup := if m.state ≠ .publish then true else m.dup, state := .publish }
+      { m with dup := if m.state ≠ .publish ∧ m.state ≠ .queued then true else m.dup, state := .publish }
     else if m.state = .waitPubcomp ∨ m.state = .resendPubrel then { m with state := .resendPubrel }
     else { m with dup := if m.state = .waitPubrec then true else m.dup, state := .publish }
   else m
@@ -645,18 +647,12 @@ def loopMisc (s : S) : S × RC :=
         (s.doOnDisconnect rc false, rcConnLost)
       else (s, rcSuccess)
 
-/-- the remaining-length guard added to `publish()` (packet must be expressible) -/
-def publishRemLen (proto : Nat) (topic payload : Bytes) (qos : Nat) : Nat :=
-  2 + topic.length + payload.length + (if qos > 0 then 2 else 0) + (if proto = 5 then 1 else 0)
-
 /-- `publish(topic, payload, qos, retain)` with already-encoded topic and payload -/
 def publish (s : S) (qos : Nat) (topic payload : Bytes) (retain : Bool) : S :=
-  match publishCheck s.proto topic qos .bytes payload.length with
+  match publishCheckFull s.proto topic qos .bytes payload.length (if s.proto = 5 then 1 else 0) with
   | some .typeError => s.emit (.exc "TypeError")
   | some _ => s.emit (.exc "ValueError")
   | none =>
-    if publishRemLen s.proto topic payload qos > 268435455 then s.emit (.exc "ValueError")
-    else
       let mid := midNext s.lastMid
       let s := { s with lastMid := mid }
       let infoIdx := s.infos.length
